@@ -371,19 +371,38 @@ pub fn outcome_of(r: Result<Result<QRCode, fast_qr::qr::QRCodeError>, String>) -
 }
 
 /// The crate's public surface is more than the builder: `datamasking::mask` (public, hidden from the docs),
-/// `QRCode::default(size)`, the text renderer. One build in eight is preceded, on the same thread, by a call of that
+/// `QRCode::default(size)`, the text renderer, requests that are refused. One build in six is preceded, on the same thread, by a call of that
 /// other API on a hand-made value - usually of exactly the side the coming symbol will have. Whatever such a call
 /// leaves behind may not reach the build that follows.
 fn foreign_api_primer(cfg: &Config, h: u64) {
     let mut rng = oracle::rng::Rng::new(oracle::rng::mix(h, 0xf0e1));
-    if !rng.chance(1, 8) {
+    if !rng.chance(1, 6) {
         return;
     }
     let side = match cfg.version {
         Some(v) if rng.chance(3, 4) => 17 + 4 * v,
         _ => 17 + 4 * (1 + rng.below(40)),
     };
-    let _ = guarded(|| match rng.below(4) {
+    let _ = guarded(|| match rng.below(6) {
+        4 | 5 => {
+            // a request the crate refuses by panicking (a forced mode whose alphabet does not contain the input: the
+            // documented assertion), caught here like an application would, with the options of the coming build:
+            // whatever the unwinding left half-done on this thread may not reach the build that follows
+            let n = 1 + rng.below(14);
+            let numeric = rng.chance(1, 2);
+            let mut bytes: Vec<u8> = (0..n).map(|_| if numeric { b'0' + rng.below(10) as u8 } else { *rng.pick(b"ABCXYZ019 $%*+-./:") }).collect();
+            let at = rng.below(bytes.len());
+            bytes[at] = *rng.pick(b"xa~,\x00\xff");
+            let mut b = QRBuilder::new(bytes);
+            b.mode(if numeric { MODES[0] } else { MODES[1] });
+            if let Some(v) = cfg.version {
+                b.version(VERSIONS[v - 1]);
+            }
+            if let Some(l) = cfg.level {
+                b.ecl(LEVELS[l]);
+            }
+            std::hint::black_box(b.build().is_ok());
+        }
         0 | 1 => {
             let mut q = QRCode::default(side);
             fast_qr::datamasking::mask(&mut q, MASKS[rng.below(8)]);
